@@ -145,6 +145,11 @@ class QuickShift(BaseEstimator):
         np.fill_diagonal(dist_matrix, np.inf)
         if self.dist_cutoff_sq is None:
             gabrial = _get_gabriel_graph(dist_matrix)
+        else:
+            # the documented form of the cut-off is one number for all points
+            dist_cutoff_sq = np.broadcast_to(
+                self.dist_cutoff_sq, (dist_matrix.shape[0],)
+            )
         idmindist = np.argmin(dist_matrix, axis=1)
         idxroot = np.full(dist_matrix.shape[0], -1, dtype=int)
         for i in tqdm(range(dist_matrix.shape[0]), desc="Quick-Shift"):
@@ -164,7 +169,7 @@ class QuickShift(BaseEstimator):
                         idmindist[current],
                         samples_weight,
                         dist_matrix,
-                        self.dist_cutoff_sq[current],
+                        dist_cutoff_sq[current],
                     )
                 if idxroot[idxroot[current]] != -1:
                     # Found a path to a root
